@@ -1987,7 +1987,7 @@ func (s *SelectStatement) rewriteWithoutTimeDimensions() string {
 	n := RewriteFunc(s.Condition, func(n Node) Node {
 		switch n := n.(type) {
 		case *BinaryExpr:
-			if n.LHS.String() == "time" {
+			if isTimeVarRef(n.LHS) || isTimeVarRef(n.RHS) {
 				return &BooleanLiteral{Val: true}
 			}
 			return n
@@ -1998,7 +1998,18 @@ func (s *SelectStatement) rewriteWithoutTimeDimensions() string {
 		}
 	})
 
+	// A top-level OR has to stay grouped when the new time range is appended with AND.
+	if be, ok := n.(*BinaryExpr); ok && be.Op == OR {
+		return "(" + n.String() + ")"
+	}
 	return n.String()
+}
+
+// isTimeVarRef returns true if expr is a reference to the time column, which
+// conditions may spell in any case and put on either side of a comparison.
+func isTimeVarRef(expr Expr) bool {
+	ref, ok := expr.(*VarRef)
+	return ok && strings.ToLower(ref.Val) == "time"
 }
 
 func encodeMeasurement(mm *Measurement) *internal.Measurement {
